@@ -15,7 +15,7 @@ from ..world import diff, is_contextual
 
 ID = "C15"
 LEVEL = "exploration"
-QUICK_RUNS = 480
+QUICK_RUNS = 1920
 CHUNK = 10
 RULE = ("Each run: 1-4 drawn bandits in drawn order, data set of 12-48 rows (arms absent from train or test included), "
         "test_size, ordered/random split, offline or online with drawn batch size, is_quick, seed, chunk budget in "
@@ -52,6 +52,15 @@ def execute(case, ctx):
     if online and getattr(run, "chunk", 10 ** 9) < run.batch:
         sig["kf"] = "online-chunk-budget-below-batch"
     if run.exc is not None:
+        # no claim if driving the same bandits through the public API raises as well (e.g. a metric that is undefined
+        # for this data): the property compares reported results, there are none on either side
+        for i in range(len(cfgs)):
+            try:
+                api_reference(run, case, i, True, False)
+            except Exception as e:   # noqa
+                ctx.fired("probe.simulator_and_api_both_raise")
+                ctx.ev("both_raise", type(run.exc).__name__, type(e).__name__)
+                return
         ctx.violate("simulator-raised", 0, {"exc": type(run.exc).__name__, "msg": str(run.exc)[:200]},
                     **simworld.exc_sig(run, case, sig))
         return
